@@ -342,7 +342,10 @@ def run(ctx):
                   "with an xattr_filter the instance runs only for cgroups carrying the attribute",
                   "the instance can run for a cgroup without the xattr_filter attribute")
         r = Expander(P, ro)(ro.nodes[i]["recv"])
-        ctx.check(("this->runnable_rulesets_[%s]" % KEY in hoist_text(ro, ro.nodes[i]["recv"], P)) or ("this->runnable_rulesets_[elem(" in r and ".absolutePath()]" in r), "run-the-instance-of-this-cgroup", "provenance", ro.loc(i),
+        # the lookup spelled map[key], map.at(key) or map.find(key)->second
+        r_norm = re.sub(r"this->runnable_rulesets_\.at\((.*?\.absolutePath\(\))\)", r"this->runnable_rulesets_[\1]", r)
+        r_norm = re.sub(r"this->runnable_rulesets_\.find\((.*?\.absolutePath\(\))\)->second", r"this->runnable_rulesets_[\1]", r_norm)
+        ctx.check(("this->runnable_rulesets_[%s]" % KEY in hoist_text(ro, ro.nodes[i]["recv"], P)) or ("this->runnable_rulesets_[elem(" in r_norm and ".absolutePath()]" in r_norm), "run-the-instance-of-this-cgroup", "provenance", ro.loc(i),
                   "the instance looked up by this cgroup's absolute path is run", "runs " + r[:100])
     # past the filters the instance always runs, is marked visited
     for b in back_sources(L):
